@@ -17,6 +17,17 @@ Theorem c14_reference_any_scratch : forall c, WF c -> forall s, spec_ok c (model
 Proof. exact model_spec_ok_scratch. Qed.
 Print Assumptions c14_reference_any_scratch.
 
+(* what the reference's per-offset null IS: coefficient j of the polynomial of relative offset k-nq+1
+   counts (weighted by the column multiplicities) the tuples of pooled target columns, one per aligned
+   query column, whose integerised similarities sum to j - i.e. independent draws from the pooled
+   target-column distribution *)
+Theorem c14_reference_enumerates : forall c, WF c -> forall nt k j,
+  (1 <= nt)%nat -> (k < nt + q_nq (c_q c) - 1)%nat ->
+  nth j (null_poly c nt (o_of c k)) 0
+  = count_eq (rev (map (wcol c) (seq (fst (span_of c nt k)) (slen (span_of c nt k))))) (Z.of_nat j).
+Proof. exact null_poly_enumerates. Qed.
+Print Assumptions c14_reference_enumerates.
+
 (* reverse-complementing the targets changes only the reported strand (strands scoring differently) *)
 Theorem c14_strand_swap : forall a b, r_score a <> r_score b -> 0 < snd (r_p a) -> 0 < snd (r_p b) ->
   let m1 := merged a b in let m2 := merged b a in
